@@ -20,7 +20,7 @@ fn nth_string(mut i: u64, len: usize) -> String {
 }
 
 fn totality(tier: Tier, shard: Shard, stats: &mut Stats) {
-    let maxlen = if tier == Tier::Quick { 5 } else { 7 };
+    let maxlen = if tier == Tier::Quick { 6 } else { 8 };
     let base = ProgressStyle::default_bar();
     for len in 0..=maxlen {
         let n = 16u64.pow(len as u32);
@@ -202,7 +202,7 @@ pub fn run(tier: Tier, shard: Shard, stats: &mut Stats) {
 }
 
 pub fn meta(tier: Tier) -> Meta {
-    let (l, k) = if tier == Tier::Quick { (5, 3) } else { (7, 4) };
+    let (l, k) = if tier == Tier::Quick { (6, 3) } else { (8, 4) };
     Meta {
         level: "exploration",
         rule: format!("totality: every string of length <= {l} over the 16-symbol alphabet {:?} through with_template (and template() for length <= 4), plus 216 placeholder widths up to 25 digits x 6 prefixes x 4 suffixes; fidelity: every derivation of <= {k} segments from {} grammar segments rendered on a real bar and compared with the derivation's own concatenation; non-trivial = accepted template / multi-segment derivation; distinct = distinct rendered outputs", SIGMA, segments().len()),
